@@ -331,6 +331,9 @@ func streamSuite(r *Run, prop string) {
 	if prop != "C01" {
 		unarySuite(r, prop)
 	}
+	if prop != "C03" {
+		hcSuite(r, prop)
+	}
 	extraChecks(r, prop)
 }
 
